@@ -138,7 +138,7 @@ theorem readCharCGo_eq (buf : List Byte) (cs : List (List Byte)) :
   fun_induction readCharCGo buf cs <;> simp_all [readCharGo]
 
 theorem readLineCGo_eq (d : Nat) (raw esc : Bool) (buf : List Byte) (cs : List (List Byte))
-    (acc : List (Char × Bool)) :
+    (acc : List AChar) :
     ((readLineCGo d raw esc buf cs acc).1, (readLineCGo d raw esc buf cs acc).2.1,
       (readLineCGo d raw esc buf cs acc).2.2.flatten) = readLineGo d raw esc buf cs.flatten acc := by
   fun_induction readLineCGo d raw esc buf cs acc <;> simp_all [readLineGo]
@@ -183,7 +183,7 @@ theorem splitLine_unique (pre rest : List Byte) (h1 : pre.getLast? = some NL)
 
 /-- a successful `read` consumed a prefix of the stream that ends with the delimiter byte -/
 theorem readLineGo_line (d : Nat) (hd : d < 128) (raw esc : Bool) (buf p : List Byte)
-    (acc cs : List (Char × Bool)) (rest : List Byte)
+    (acc cs : List AChar) (rest : List Byte)
     (h : readLineGo d raw esc buf p acc = (cs, .found, rest)) :
     ∃ pre bl, pre ++ rest = p ∧ pre.getLast? = some bl ∧ bl.toNat = d := by
   induction p generalizing esc buf acc with
@@ -223,7 +223,7 @@ theorem readLineGo_line (d : Nat) (hd : d < 128) (raw esc : Bool) (buf p : List 
             obtain ⟨pre, bl, h1, h2, h3⟩ := ih _ _ _ h; exact cons_ok pre bl h1 h2 h3
 
 /-- a successful `read -r` consumed exactly the first line -/
-theorem readLineGo_raw_line (buf p : List Byte) (acc cs : List (Char × Bool)) (rest : List Byte)
+theorem readLineGo_raw_line (buf p : List Byte) (acc cs : List AChar) (rest : List Byte)
     (h : readLineGo 10 true false buf p acc = (cs, .found, rest)) :
     ∃ pre, pre ++ rest = p ∧ pre.getLast? = some NL ∧ NL ∉ pre.dropLast := by
   induction p generalizing buf acc with
@@ -277,7 +277,7 @@ theorem utf8_not_delim (buf : List Byte) (b : Byte) (d : Nat) (hd : d < 128)
     · rw [this] at h1; simp at h1
 
 /-- end of input: everything was consumed -/
-theorem readLineGo_eof (d : Nat) (raw esc : Bool) (buf p : List Byte) (acc : List (Char × Bool)) :
+theorem readLineGo_eof (d : Nat) (raw esc : Bool) (buf p : List Byte) (acc : List AChar) :
     (readLineGo d raw esc buf p acc).2.1 = .eof → (readLineGo d raw esc buf p acc).2.2 = [] := by
   induction p generalizing esc buf acc with
   | nil => intro _; simp [readLineGo]
@@ -305,7 +305,7 @@ theorem readLineGo_eof (d : Nat) (raw esc : Bool) (buf p : List Byte) (acc : Lis
 
 /-- a successful `read -r -d X`: the delimiter byte does not occur before the end of what was
     consumed -/
-theorem readLineGo_raw_first (d : Nat) (hd : d < 128) (buf p : List Byte) (acc cs : List (Char × Bool))
+theorem readLineGo_raw_first (d : Nat) (hd : d < 128) (buf p : List Byte) (acc cs : List AChar)
     (rest : List Byte) (h : readLineGo d true false buf p acc = (cs, .found, rest)) :
     ∃ pre bl, pre ++ rest = p ∧ pre.getLast? = some bl ∧ bl.toNat = d
       ∧ ∀ x ∈ pre.dropLast, x.toNat ≠ d := by
